@@ -123,25 +123,23 @@ def shouldSplit (E : Env α) (c : FCtx α) (rowLimit : Int) (depth : Nat) (n : N
   (decide (depth ≤ c.bp.depthTh) || decide (rowLimit ≤ (nrows : Int))) && !n.data.isStub && !n.isSing
     && n.overThreshold E c c.ap.supp.lt
 
-/-- `add_row(depth, row)`; `fuel` bounds the recursion depth (exhaustion = the implementation's `RecursionError`,
-reported by `addRowChecked`). -/
-def addRow (E : Env α) (c : FCtx α) (rowLimit : Int) : Nat → Nat → Node α → Nat → Node α
-  | 0, _, n, _ => n
+/-- `add_row(depth, row)`; `fuel` bounds the recursion depth, `none` = budget exhausted (the implementation's
+`RecursionError`). -/
+def addRow (E : Env α) (c : FCtx α) (rowLimit : Int) : Nat → Nat → Node α → Nat → Option (Node α)
+  | 0, _, _, _ => none
   | fuel+1, depth, .leaf d subs rows, row =>
-      let d' := updData c d row
-      let rows' := rows ++ [row]
-      if shouldSplit E c rowLimit depth (.leaf d' subs rows') rows'.length then
+      if shouldSplit E c rowLimit depth (.leaf (updData c d row) subs (rows ++ [row])) (rows ++ [row]).length then
         -- `Branch(leaf)`: same intervals and sub-nodes, a fresh entity counter, then every row re-inserted
-        let b0 : Node α := .branch { d' with counter := c.kind.newEntity, isStub := stubFlag E c subs } subs []
-        rows'.foldl (fun b r => addRow E c rowLimit fuel depth b r) b0
-      else .leaf d' subs rows'
+        (rows ++ [row]).foldlM (fun b r => addRow E c rowLimit fuel depth b r)
+          (.branch { updData c d row with counter := c.kind.newEntity, isStub := stubFlag E c subs } subs [])
+      else some (.leaf (updData c d row) subs (rows ++ [row]))
   | fuel+1, depth, .branch d subs children, row =>
       let idx := childIndex d.snapped (c.vals d.comb row)
-      let children' :=
-        match children.find? (fun p => p.1 == idx) with
-        | none => children ++ [(idx, createChild E c d subs idx row)]
-        | some _ => children.map (fun p => if p.1 == idx then (p.1, addRow E c rowLimit fuel (depth + 1) p.2 row) else p)
-      .branch (updData c d row) subs children'
+      match children.find? (fun p => p.1 == idx) with
+      | none => some (.branch (updData c d row) subs (children ++ [(idx, createChild E c d subs idx row)]))
+      | some _ =>
+        (children.mapM (fun p => if p.1 == idx then (addRow E c rowLimit fuel (depth + 1) p.2 row).map (fun n => (p.1, n)) else some p)).map
+          (fun ch => .branch (updData c d row) subs ch)
 
 /-- depth of a tree (to detect fuel exhaustion) -/
 def Node.depth : Nat → Node α → Nat
